@@ -121,3 +121,19 @@ Example C07_ex_torn_inside_critical_section :
   (None, true, true, 0,
    [([IWriteDebugReconf false; IUnlock], None, []); ([IRLock; IReadIcfg; IRUnlock; IUse], None, [])]).
 Proof. vm_compute; reflexivity. Qed.
+
+(* ---- tie to the source: the lock operations and shared-field accesses that tools/genconc extracts
+   from middleware.go on this run (Gen/ConcSrc.v) are exactly the shapes of the modelled programs:
+   one critical section per method; the request path reads both fields inside ONE read-locked section and
+   touches neither afterwards; writers build outside the lock and write both fields inside one section.
+   A change such as reading the debug flag in a second critical section, re-reading m.icfg later, calling
+   the wrapped handler under the lock or dropping the lock makes this theorem fail to check. ---- *)
+Require Import Gen.ConcSrc.
+Theorem C07_source_has_the_modelled_shape :
+  (forall k, go_Wrap = shape (prog_request (S k))) /\
+  (forall v, go_Reconfigure = GOther :: shape (prog_reconfigure v)) /\       (* validation runs before the critical section *)
+  (forall b, go_SetDebug = shape (prog_setdebug b)) /\
+  go_Config = shape prog_config /\
+  go_other_methods_touching_state = 0%nat.
+Proof. exact source_shape. Qed.
+Print Assumptions C07_source_has_the_modelled_shape.
